@@ -32,6 +32,18 @@ def run(prog, tier):
     import p_c05
     p_c05.sync_table_rule(prog, res, rule='load-reconcile')
     CR.reader_refusals_rule(prog, res)
+    # every record read from the file is inserted with the library's own replace-or-append: a record must
+    # only replace the stored record of exactly its name, otherwise it is appended
+    import p_c09
+    from result import Result as _R
+    tmp = _R('x', tier, '')
+    gp = prog.fn(p_c09.G + '::parameter', ptypes=['const ezc3d::ParametersNS::GroupNS::Parameter &'])
+    p_c09.replace_or_append(prog, tmp, gp, '_parameters', r'^this\.parameter\(local:%s\)\._name$', 'arg0._name')
+    pg = prog.fn(p_c09.PS + '::group', ptypes=['const ezc3d::ParametersNS::GroupNS::Group &'])
+    p_c09.replace_or_append(prog, tmp, pg, '_groups', r'^this\.group\(local:%s\)\._name$', 'arg0._name')
+    for o in tmp.obs:
+        o['rule'] = 'load-insert'
+    res.obs.extend(tmp.obs)
     # every sample is exposed with the bits the file holds: REAL values travel as float, by copies only
     CR.float_path_rule(prog, res, 'sample-bits')
     CR.copy_completeness_rule(prog, res)
